@@ -22,7 +22,7 @@ use std::collections::HashSet;
 pub const SITE: &str = "mc::UnrollSmtEncoding (init_at / unroll / get_signal_at)";
 
 pub fn gen_cfg() -> GenCfg {
-    GenCfg { max_states: 3, max_inputs: 2, max_width: 4, arrays: true, max_depth: 2, div: false, max_state_bits: 12, total: false }
+    GenCfg { max_states: 3, max_inputs: 2, max_width: 4, arrays: true, max_depth: 2, div: true, max_state_bits: 12, total: false }
 }
 
 pub fn spec_for(seed: u64, index: u64) -> SysSpec {
